@@ -43,6 +43,16 @@ class Fixture:
         # of write (a body, a JSON newline, a YAML '---' line) for some member of the family
         for L in range(1, 7):
             w("docs%d.json" % L, b"1" * L + b" 0" * 12000)
+        # names and contents at the edges: an operand that looks like an option, names that are not UTF-8, a byte order mark
+        w("--help", b'{"named":"--help"}')
+        w("-q", b"q: 1\n")
+        w("caf\udce9.json", b'{"name":"not UTF-8"}')
+        w("\udcff\udcfe.YAML", b"odd: name\n")
+        w("y\udce9.json", b"yaml: in a .json name\n")
+        w("bom.json", b'\xef\xbb\xbf{"bom":1}')
+        w("bom.yaml", b"\xef\xbb\xbfbom: 1\n")
+        w("bom.toml", b"\xef\xbb\xbfbom = 1\n")
+        w("bomstream", b'\xef\xbb\xbf{"a":1} {"b":2}')
         w("X.JSON", b'{"upper":true}')
         w("x.Yml", b"yml: 1\n")
         w("x.YAML", b"yaml: 1\n")
@@ -314,7 +324,8 @@ def predict_and_run(binary, cwd, cases, jobs=16):
 
 
 def display(path):
-    return b"standard input" if path == b"-" else path
+    """How xt shows a path (Path::display: bytes that are not UTF-8 become U+FFFD)."""
+    return b"standard input" if path == b"-" else path.decode("utf-8", "replace").encode("utf-8")
 
 
 def compare(r, check_stdout=True):
